@@ -1,3 +1,8 @@
 import Props.C05
 import Props.C15
 import Props.C17
+import Props.C19
+import Props.C12
+import Props.C09
+import Props.C10
+import Props.C20
